@@ -35,7 +35,7 @@ ASSUMPTIONS = [
     'Sharpe/Sortino compared only when their denominator is well conditioned; Sortino only with >= 2 negative returns',
     'float tolerance 1e-9 (drawdowns absolute, other statistics relative)',
 ]
-SHAPES = ['walk', 'up', 'down', 'flat', 'vee', 'spike', 'walk_small', 'nearly_flat', 'fixed_fee']
+SHAPES = ['walk', 'up', 'down', 'flat', 'vee', 'spike', 'walk_small', 'nearly_flat', 'fixed_fee', 'wipeout']
 
 
 def build_curve(seed, n, shape, e0):
@@ -64,6 +64,9 @@ def build_curve(seed, n, shape, e0):
             else:
                 e.append(round(e[-1] * (1 + rnd.uniform(0, .002)), 2))
             continue
+        elif shape == 'wipeout':
+            # one session loses all but a few thousandths of a percent of the account, which then rebuilds
+            k = 3.7e-5 if i == max(1, n // 3) else 1 + rnd.uniform(-.01, .06)
         elif shape == 'vee':
             k = 1 - rnd.uniform(0, .03) if i < n // 2 else 1 + rnd.uniform(0, .04)
         else:
@@ -417,6 +420,8 @@ def cases(draw):
         e0 = 2.5e6
     if shape == 'fixed_fee':
         e0 = 1e9
+    if shape == 'wipeout':
+        e0 = 1e7
     e = build_curve(draw(st.integers(0, 2 ** 31)), n, shape, e0)
     # (only while every value fits a 64-bit integer column exactly: larger Python ints become an object column)
     whole = e0 >= 1e4 and max(e) < 2.0 ** 53 and draw(st.sampled_from([False, False, False, True]))
